@@ -64,7 +64,7 @@ const (
 
 func (c13) Gen(r *world.Rng, tier string, n int) interface{} {
 	sc := &C13Sc{IOSeed: r.U64()}
-	sc.Prog = []string{"jr", "djnz", "ldir", "io", "xy", "edxy", "inc", "sled", "ring", "fwdio", "structured", "structured", "structured", "structured"}[r.Intn(14)]
+	sc.Prog = []string{"jr", "djnz", "ldir", "io", "xy", "edxy", "inc", "sled", "ring", "fwdio", "pfx", "selfmod", "structured", "structured", "structured", "structured", "structured"}[r.Intn(17)]
 	sc.R0 = r.Byte()
 	if sc.Prog == "structured" {
 		mode := r.Intn(3)
@@ -83,7 +83,7 @@ func (c13) Gen(r *world.Rng, tier string, n int) interface{} {
 			a := instrAddrs(p)
 			sc.BP = append(sc.BP, a[r.Intn(len(a))])
 		}
-	} else if r.Chance(1, 3) && sc.Prog != "sled" && sc.Prog != "ring" && sc.Prog != "fwdio" {
+	} else if r.Chance(1, 3) && sc.Prog != "sled" && sc.Prog != "ring" && sc.Prog != "fwdio" && sc.Prog != "pfx" {
 		sc.BP = []uint16{0x4000, 0x0101} // never hit (0x0101 is inside the first instruction)
 	}
 	if sc.Prog != "structured" && r.Chance(1, 3) {
@@ -97,7 +97,7 @@ func (c13) Gen(r *world.Rng, tier string, n int) interface{} {
 		sc.By = "other"
 		sc.Repeats = r.Range(3, 30)
 		sc.FreeSpin = r.Pick(0, 1, 10, 100, 1000, 10000)
-		if sc.Prog == "structured" {
+		if sc.Prog == "structured" || sc.Prog == "pfx" {
 			sc.Prog = "jr"
 			sc.Struct, sc.Handlers, sc.Table, sc.BP = nil, nil, nil, nil
 			sc.Events = nil
@@ -274,6 +274,16 @@ func c13Segs(sc *C13Sc) (world.Regs, []world.Seg) {
 		// all-zero memory: a NOP sled around the whole 64 KiB ring, every Step moves forward
 		regs.PC = uint16(sc.R0) << 8
 		segs = nil
+	case "pfx":
+		// nothing but index prefixes in all 64 KiB (filled in by c13Machine): no Step ever finds an
+		// instruction, each one must come back all the same
+		regs.PC = uint16(sc.R0) << 8
+		segs = nil
+	case "selfmod":
+		// LD HL,8000 ; LD DE,0107 ; LD BC,0010 ; LDIR ; JR $ - the copy (zeros) runs over the LDIR's own
+		// opcode at 0109: from the third element on there is no LDIR any more, execution continues
+		// with what the bytes now say (NOP ; OR B) and parks in the JR
+		segs = []world.Seg{world.MkSeg(0x0100, []uint8{0x21, 0x00, 0x80, 0x11, 0x07, 0x01, 0x01, 0x10, 0x00, 0xed, 0xb0, 0x18, 0xfe})}
 	case "ring":
 		// three forward JPs: 0000 -> 5000 -> A000 -> 0000 (the last one is forward through the wrap)
 		regs.PC = 0
@@ -307,6 +317,12 @@ func c13Machine(sc *C13Sc) *world.Machine {
 	regs, segs := c13Segs(sc)
 	m, _ := world.NewMachine(regs, segs, sc.IOSeed, sc.Events)
 	m.Bus.KeepPorts = true
+	if sc.Prog == "pfx" {
+		pat := [][]uint8{{0xdd}, {0xfd}, {0xdd, 0xfd}, {0xfd, 0xfd, 0xdd}}[sc.R0%4]
+		for i := range m.Bus.Mem {
+			m.Bus.Mem[i] = pat[i%len(pat)]
+		}
+	}
 	if len(sc.BP) > 0 {
 		m.CPU.BreakPoints = map[uint16]struct{}{}
 		for _, a := range sc.BP {
@@ -557,6 +573,7 @@ func c13One(sc *C13Sc, cancelTick uint64, env *Env) *Violation {
 				if r := recover(); r != nil {
 					if _, ok := r.(*c13Sentinel); ok {
 						ranAway = true
+						env.Waive = true // (torn down by the harness's own panic: not a return of Run)
 						return
 					}
 					panic(r)
